@@ -15,6 +15,14 @@ impl ScopedCounter {
         }
     }
 
+    /// A counter that continues from `count`, for work nested inside a
+    /// scope that is already that deep.
+    pub fn starting_at(count: usize) -> ScopedCounter {
+        ScopedCounter {
+            count: RefCell::new(count),
+        }
+    }
+
     pub fn count(&self) -> usize {
         *self.count.borrow()
     }
